@@ -754,6 +754,9 @@ impl AssetExpr {
         match &self.policy {
             Expression::None => None,
             Expression::Bytes(x) => Some(x.as_slice()),
+            // what a `policy P = 0x..;` definition lowers to when `P` is used as the policy
+            // of an asset
+            Expression::Hash(x) => Some(x.as_slice()),
             _ => None,
         }
     }
